@@ -9,8 +9,10 @@ Init == i = 1
 (*   [kind |-> "paths", ids]                 ids = the texts (digests) of the four render paths of one statement          *)
 Ok(e) == IF e.kind = "agg" THEN IsAgg(e.tree) = e.obs
          ELSE IF e.kind = "paths" THEN PathsAgree(e.ids)
+         ELSE IF e.kind = "custom" THEN CustomCall(e.parts[1], e.parts[2]) = [st |-> e.st, ids |-> e.ids]
          ELSE FoldCrit(e.parts) = [st |-> e.st, ids |-> e.ids]
-WantStr(e) == IF e.kind = "agg" THEN IsAgg(e.tree) ELSE IF e.kind = "paths" THEN "one-text" ELSE FoldCrit(e.parts).st
+WantStr(e) == IF e.kind = "agg" THEN IsAgg(e.tree) ELSE IF e.kind = "paths" THEN "one-text"
+              ELSE IF e.kind = "custom" THEN CustomCall(e.parts[1], e.parts[2]).st ELSE FoldCrit(e.parts).st
 Next == /\ i <= Len(Events)
         /\ IF Ok(Events[i]) THEN TRUE ELSE PrintT("V " \o ToJson([tid |-> Events[i].tid, want |-> WantStr(Events[i])]))
         /\ i' = i + 1
